@@ -224,6 +224,22 @@ def run(ctx):
                 if isinstance(b, ast.Assign) and isinstance(b.value, ast.DictComp):
                     ok = isinstance(b.value.value, ast.Constant) and b.value.value.value == 1
     r4.check(ok, f"{m.rel}:Job.get_limits:list-form", "list-form limits are not mapped to {name: 1}", m.rel, gl.lineno)
+    # the demand is the job's *effective* `limits` option (definition < exported by the parent < call-time < scheduler-imposed), i.e. read through
+    # self.get_option; the task's definition-time option alone ignores `.options(limits=...)` and limits exported by a parent
+    sources = [a.value for a in ast.walk(gl) if isinstance(a, ast.Assign) and any(isinstance(t, ast.Name) and t.id == "limits" for t in a.targets) and not isinstance(a.value, ast.DictComp)]
+    def _effective(v):
+        if isinstance(v, ast.IfExp):
+            return _effective(v.body) and (isinstance(v.orelse, ast.Dict) and not v.orelse.keys)
+        return isinstance(v, ast.Call) and src(v.func) == "self.get_option" and v.args and isinstance(v.args[0], ast.Constant) and v.args[0].value == "limits"
+    ok = bool(sources) and all(_effective(v) for v in sources)
+    r4.check(
+        ok,
+        f"{m.rel}:Job.get_limits:effective-option",
+        f"Job.get_limits takes the demand from {[src(v)[:60] for v in sources]} instead of self.get_option('limits', ...): limits given at call time (task.options(limits=...)) or exported by a parent "
+        "job are ignored, so such jobs hold fewer units than they declare and more of them run at once than the configured limit allows",
+        m.rel,
+        gl.lineno,
+    )
 
 
 def _resolves_to_get_limits(fn, a, jobvar) -> bool:
